@@ -54,6 +54,27 @@ def run_e2e(args):
                         rec["runs"].append({"iface": iface, "split": split, "shuffle": shuffle, "T": T, "got": got, "calls": calls})
                     except Exception as e:  # noqa: BLE001
                         rec["runs"].append({"iface": iface, "split": split, "shuffle": shuffle, "T": T, "error": f"{type(e).__name__}: {str(e)[:200]}"})
+        # read - append - read on the *same* handle: a pass after a further writing session sees the new examples too
+        if a.get("append"):
+            split0 = next((s for s in written if written[s]), None)
+            if split0 is not None:
+                extra = list(range(10 ** 5, 10 ** 5 + a["append"]))
+                try:
+                    with ds.filler() as f:
+                        for v in extra:
+                            f.write_example(values=sp.val(v), split=split0)
+                    for iface in I.IFACES:
+                        if not I.supports(iface, a["fmt"], a["comp"]):
+                            continue
+                        shuffle, T = a["configs"][0]
+                        T = max(1, T if T > 0 else 2)
+                        try:
+                            got, _ = I.run_iface(ds, iface, split0, shuffle=shuffle, T=T)
+                            rec["runs"].append({"iface": iface, "split": split0, "shuffle": shuffle, "T": T, "got": got, "calls": None, "after_append": extra})
+                        except Exception as e:  # noqa: BLE001
+                            rec["runs"].append({"iface": iface, "split": split0, "shuffle": shuffle, "T": T, "error": f"{type(e).__name__}: {str(e)[:200]}", "after_append": extra})
+                except Exception as e:  # noqa: BLE001
+                    rec["runs"].append({"iface": "filler", "split": split0, "shuffle": 0, "T": 1, "error": f"append session: {type(e).__name__}: {str(e)[:200]}", "after_append": extra})
         out.append(rec)
         shutil.rmtree(root, ignore_errors=True)
     return out
@@ -79,7 +100,7 @@ def e2e_cases(ctx):
             configs = [configs[0], configs[2 + i % 2], configs[4]]
         cases.append({"root": str(ctx.scratch / f"e2e{i}"), "fmt": fmt, "comp": comp, "eps": eps, "plan": plan, "configs": configs,
                       # no checksum algorithm at all is a valid configuration: nothing may depend on the digests being distinct
-                      "hashes": [["sha256"], [], ["md5", "xxh64"]][(i // 3 + i) % 3]})
+                      "hashes": [["sha256"], [], ["md5", "xxh64"]][(i // 3 + i) % 3], "append": [0, 3, 1][i % 3]})
     return cases
 
 
@@ -122,8 +143,8 @@ def run(ctx):
                            {"case": r["case"], "split": split})
         for run_ in r["runs"]:
             nruns += 1
-            exp = r["written"][run_["split"]]
-            sig = {"kind": "e2e", "iface": run_["iface"], "shuffled": run_["shuffle"] > 0}
+            exp = r["written"][run_["split"]] + run_.get("after_append", [])
+            sig = {"kind": "e2e", "iface": run_["iface"], "shuffled": run_["shuffle"] > 0, "after_append": "after_append" in run_}
             if "error" in run_:
                 ctx.report(dict(sig, kind="e2e-error"), f"{run_['iface']} shuffle={run_['shuffle']} T={run_['T']} raised {run_['error']}",
                            {"case": r["case"], "run": run_})
